@@ -338,8 +338,35 @@ func (c *Ctx) bufferChecked(eng *ranges.Engine, fn *ssa.Function, p ssa.Value, d
 								return false, where, d
 							}
 						case *ssa.MakeClosure:
-							if !c.checkedAtFor(fn, y.Block(), cell) {
+							if c.checkedAtFor(fn, y.Block(), cell) {
+								continue
+							}
+							// not tested before the closure is made: every load of the captured cell inside
+							// the closure body is the buffer again (encode = func() { return impl(pixelData, …) })
+							cf, _ := y.Fn.(*ssa.Function)
+							if cf == nil || cf.Blocks == nil {
 								okCell = false
+								continue
+							}
+							for bi, bnd := range y.Bindings {
+								if bnd != ssa.Value(cell) || bi >= len(cf.FreeVars) {
+									continue
+								}
+								fv := cf.FreeVars[bi]
+								if fv.Referrers() == nil {
+									continue
+								}
+								for _, fr := range *fv.Referrers() {
+									switch z := fr.(type) {
+									case *ssa.UnOp:
+										if ok2, where, d := c.bufferChecked(eng, cf, z, depth+1, visiting); !ok2 {
+											return false, where, d + " (captured by a closure made in " + load.FuncName(fn) + ")"
+										}
+									case *ssa.DebugRef:
+									default:
+										okCell = false
+									}
+								}
 							}
 						case *ssa.Store, *ssa.DebugRef:
 						default:
